@@ -372,17 +372,51 @@ func marshalStructWithMap[T any](s *T, mapField string) ([]byte, error) {
 // Here jsonNames also returns fields from embedded structs, hence this function
 // handles embedded structs as well.
 func unmarshalStructWithMap[T any](data []byte, v *T, mapField string) error {
-	// Unmarshal into the struct, ignoring unknown fields.
-	if err := json.Unmarshal(data, v); err != nil {
-		return err
-	}
 	// Unmarshal into the map.
 	m := map[string]any{}
 	if err := json.Unmarshal(data, &m); err != nil {
+		// Not a JSON object: report the error from the struct, as before.
+		if serr := json.Unmarshal(data, v); serr != nil {
+			return serr
+		}
+		return err
+	}
+	names := jsonNames(reflect.TypeFor[T]())
+	// encoding/json matches object keys to struct fields case-insensitively, but
+	// JSON Schema keywords are case-sensitive: "Minimum" is an unknown keyword, not
+	// "minimum". Hide such keys from the struct decoding; they stay in the map.
+	structData := data
+	var caseVariants []string
+	for k := range m {
+		if names[k] {
+			continue
+		}
+		for n := range names {
+			if strings.EqualFold(k, n) {
+				caseVariants = append(caseVariants, k)
+				break
+			}
+		}
+	}
+	if len(caseVariants) > 0 {
+		var raw map[string]json.RawMessage
+		if err := json.Unmarshal(data, &raw); err != nil {
+			return err
+		}
+		for _, k := range caseVariants {
+			delete(raw, k)
+		}
+		var err error
+		if structData, err = json.Marshal(raw); err != nil {
+			return err
+		}
+	}
+	// Unmarshal into the struct, ignoring unknown fields.
+	if err := json.Unmarshal(structData, v); err != nil {
 		return err
 	}
 	// Delete from the map the fields of the struct.
-	for n := range jsonNames(reflect.TypeFor[T]()) {
+	for n := range names {
 		delete(m, n)
 	}
 	if len(m) != 0 {
